@@ -278,7 +278,8 @@ func paramsFromHeaders(endpoint *expr.HTTPEndpointExpr) []*Parameter {
 	var params []*Parameter
 
 	expr.WalkMappedAttr(endpoint.Headers, func(name, elem string, att *expr.AttributeExpr) error { // nolint: errcheck
-		required := endpoint.Headers.IsRequiredNoDefault(name)
+		// see openapiv3.paramsFromHeadersAndCookies
+		required := endpoint.Headers.IsRequired(name)
 		params = append(params, paramFor(att, elem, "header", required))
 		return nil
 	})
